@@ -163,7 +163,9 @@ func Eval(e *Expr, in []*V, env Env) ([]*V, error) {
 					out = append(out, kv.V)
 				}
 			case Null:
-				env.T.WouldVivify = true // yq turns the null into an empty sequence in place
+				if !env.RO {
+					env.T.WouldVivify = true // yq turns the null into an empty sequence in place
+				}
 			}
 		}
 		return out, nil
@@ -360,7 +362,9 @@ func traverseKey(v *V, k string, opt bool, env Env) ([]*V, error) {
 func seqIndex(v *V, i int, env Env) ([]*V, error) {
 	n := len(v.A)
 	if i >= n {
-		env.T.WouldVivify = true // yq pads the array (even in read-only contexts)
+		if !env.RO {
+			env.T.WouldVivify = true // yq pads the array in a writable context
+		}
 		return []*V{NullV()}, nil
 	}
 	if i < 0 {
@@ -375,7 +379,10 @@ func seqIndex(v *V, i int, env Env) ([]*V, error) {
 func traverseIndices(v *V, idx []*V, env Env) ([]*V, error) {
 	switch v.K {
 	case Null:
-		// yq turns the null into a sequence/map in place, whatever the context
+		if env.RO {
+			return nil, nil
+		}
+		// in a writable context yq turns the null into a sequence/map in place
 		env.T.WouldVivify = true
 		if len(idx) == 0 {
 			return nil, nil
@@ -392,9 +399,6 @@ func traverseIndices(v *V, idx []*V, env Env) ([]*V, error) {
 				out = append(out, NullV())
 			}
 			return out, nil
-		}
-		if env.RO {
-			return nil, nil
 		}
 		var out []*V
 		for range idx {
@@ -1105,6 +1109,22 @@ func evalFn0(name string, in []*V, env Env) ([]*V, error) {
 				return nil, err
 			}
 			out = append(out, m)
+		case "sort":
+			if v.K != Seq {
+				if v.K == Map {
+					return nil, ErrDomain
+				}
+				return nil, evalErr("sort: not an array or map")
+			}
+			keys := make([][]*V, len(v.A))
+			for i, x := range v.A {
+				keys[i] = []*V{x}
+			}
+			r, err := SortBy(v, keys)
+			if err != nil {
+				return nil, err
+			}
+			out = append(out, r)
 		case "unique":
 			r, err := uniqueBy(v, Self(), env)
 			if err != nil {
@@ -1218,7 +1238,9 @@ func evalFn1(e *Expr, in []*V, env Env) ([]*V, error) {
 					kids = append(kids, kv.V)
 				}
 			case Null:
-				env.T.WouldVivify = true // the splat inside map turns the null into a sequence in place
+				if !env.RO {
+					env.T.WouldVivify = true // the splat inside map turns the null into a sequence in place
+				}
 			}
 			rs, err := Eval(f, kids, env)
 			if err != nil {
@@ -1255,6 +1277,29 @@ func evalFn1(e *Expr, in []*V, env Env) ([]*V, error) {
 			} else {
 				out = append(out, BoolV(!found))
 			}
+		}
+		return out, nil
+	case "sort_by":
+		for _, v := range in {
+			if v.K != Seq {
+				if v.K == Map {
+					return nil, ErrDomain
+				}
+				return nil, evalErr("sort_by: not an array or map")
+			}
+			keys := make([][]*V, len(v.A))
+			for i, x := range v.A {
+				ks, err := Eval(e.L, []*V{x}, env.ro())
+				if err != nil {
+					return nil, err
+				}
+				keys[i] = ks
+			}
+			r, err := SortBy(v, keys)
+			if err != nil {
+				return nil, err
+			}
+			out = append(out, r)
 		}
 		return out, nil
 	case "unique_by":
